@@ -5,6 +5,8 @@ namespace CC
 
 structure HashSet where
   table : HashTable
+  /-- the set header's own copy of the allocator triple -/
+  triple : Triple := .conf
   deriving DecidableEq, Repr
 
 namespace HashSet
@@ -14,31 +16,31 @@ open HT
 def dummy : Nat := 1
 
 /-- `cc_hashset_new_conf`: header, then the table; the header is released when the table fails -/
-def new (c : HCfg) (initCap : Nat) (m : Mem) : Stat × Option HashSet × Mem :=
-  let a := m.alloc
+def new (c : HCfg) (initCap : Nat) (tr : Triple) (m : Mem) : Stat × Option HashSet × Mem :=
+  let a := m.allocT tr
   if !a.1 then (.errAlloc, none, a.2) else
-  let r := HashTable.new c initCap a.2
+  let r := HashTable.new c initCap tr a.2
   match r.2.1 with
-  | none => (r.1, none, r.2.2.free)
-  | some t => (.ok, some ⟨t⟩, r.2.2)
+  | none => (r.1, none, r.2.2.freeT tr)
+  | some t => (.ok, some ⟨t, tr⟩, r.2.2)
 
 /-- `cc_hashset_destroy` -/
-def destroy (s : HashSet) (m : Mem) : Mem := (s.table.destroy m).free
+def destroy (s : HashSet) (m : Mem) : Mem := (s.table.destroy m).freeT s.triple
 
 /-- `cc_hashset_add` -/
 def add (c : HCfg) (s : HashSet) (e : Option Nat) (m : Mem) : Stat × HashSet × Mem :=
   let r := s.table.add c e dummy m
-  (r.1, ⟨r.2.1⟩, r.2.2)
+  (r.1, { s with table := r.2.1 }, r.2.2)
 
 /-- `cc_hashset_remove` -/
 def remove (c : HCfg) (s : HashSet) (e : Option Nat) (m : Mem) : Stat × Option Nat × HashSet × Mem :=
   let r := s.table.remove c e m
-  (r.1, r.2.1, ⟨r.2.2.1⟩, r.2.2.2)
+  (r.1, r.2.1, { s with table := r.2.2.1 }, r.2.2.2)
 
 /-- `cc_hashset_remove_all` -/
 def removeAll (s : HashSet) (m : Mem) : HashSet × Mem :=
   let r := s.table.removeAll m
-  (⟨r.1⟩, r.2)
+  ({ s with table := r.1 }, r.2)
 
 /-- `cc_hashset_contains` -/
 def contains (c : HCfg) (s : HashSet) (e : Option Nat) (m : Mem) : Bool × Mem := s.table.containsKey c e m
@@ -58,16 +60,17 @@ def iterNext (s : HashSet) (it : HIter) (m : Mem) : Stat × Option (Option Nat) 
   (r.1, r.2.1.map (·.key), r.2.2.1, r.2.2.2)
 
 /-- `cc_hashset_iter_remove` -/
-def iterRemove (c : HCfg) (s : HashSet) (it : HIter) (m : Mem) : Stat × Option Nat × HashSet × Mem :=
+def iterRemove (c : HCfg) (s : HashSet) (it : HIter) (m : Mem) : Stat × Option Nat × HashSet × HIter × Mem :=
   let r := s.table.iterRemove c it m
-  (r.1, r.2.1, ⟨r.2.2.1⟩, r.2.2.2)
+  (r.1, r.2.1, { s with table := r.2.2.1 }, r.2.2.2.1, r.2.2.2.2)
 
 /-- the set held: the keys of the table -/
 def abs (s : HashSet) : Spec.Set := Spec.Map.keys s.table.abs
 
-/-- the table invariant, and every stored value is the dummy -/
+/-- the table invariant, every stored value is the dummy, and header and table were given the same
+allocator triple -/
 def Inv (c : HCfg) (s : HashSet) : Prop :=
-  s.table.Inv c ∧ ∀ e ∈ s.table.buckets.flatten, e.value = dummy
+  s.table.Inv c ∧ (∀ e ∈ s.table.buckets.flatten, e.value = dummy) ∧ s.table.triple = s.triple
 
 instance (c : HCfg) (s : HashSet) : Decidable (s.Inv c) := by unfold Inv; infer_instance
 
